@@ -7,7 +7,7 @@
    once (C18_iter: strictly increasing enumeration of exactly the members). *)
 From Coq Require Import List ZArith Bool Arith Sorted Lia.
 From PV Require Import Model.Term Model.Subst Model.Unify Model.FD Model.State Model.Engine Proofs.FDProofs Proofs.FDPropProofs
-  Proofs.UnifyProofs Proofs.DiseqProofs Proofs.MonoProofs Proofs.DenProofs Proofs.FDDen Proofs.FDComp Proofs.Acyc Proofs.FDEq.
+  Proofs.UnifyProofs Proofs.DiseqProofs Proofs.MonoProofs Proofs.DenProofs Proofs.FDDen Proofs.FDComp Proofs.Acyc Proofs.FDEq Spec.StreamSem Proofs.EngineProofs Proofs.FDProg Proofs.Complete0.
 Import ListNotations.
 Local Open Scope Z_scope.
 
@@ -84,6 +84,16 @@ Proof. exact run_constraints_C. Qed.
 Theorem C17_eq_complete : forall st u v, acyc (st_smap st) -> WFD st ->
   sresCP (fun th => app th u = app th v) st (state_unify st u v).
 Proof. exact state_unify_C. Qed.
+(* WHOLE PROGRAMS without recursion and before labeling: goals built from domains, every CLP(FD)/CLP(Z)
+   constraint, ==, !=, interleaving conjunction and disjunction, fresh variables (flat; written domains
+   well-formed).  Every valuation that solves the starting state and satisfies the reading of the goal
+   (each constraint its integer relation within isize, each domain membership) solves some answer state
+   that is delivered after finitely many steps, or an engine step fails with an error outcome first:
+   propagation and search together lose no solution. *)
+Theorem C17_no_solution_lost_flat : forall defs th g st, Den0 th g -> flat g -> MstG th st -> GoodS st ->
+  exists a n, MstG th a /\ emitsE (startq defs) n (startq defs g st) a.
+Proof. exact complete0_delivered. Qed.
+
 (* readings of the two outcomes *)
 Theorem C17_success_keeps : forall c st st' th, WFD st -> post_constraint c st = SOk st' ->
   MstG th st -> choldG th c -> MstG th st'.
@@ -138,3 +148,4 @@ Print Assumptions C17_success_keeps.
 Print Assumptions C17_failure_means_none.
 Print Assumptions C17_with_C16.
 Print Assumptions C17_eq_complete.
+Print Assumptions C17_no_solution_lost_flat.
